@@ -56,12 +56,14 @@ let run () =
     match words line with
     | ["env"; hn; hv] -> envl := (bytes_of_hex hn, bytes_of_hex hv) :: List.remove_assoc (bytes_of_hex hn) !envl; print_endline "ok"
     | ["env"; hn] -> envl := (bytes_of_hex hn, []) :: List.remove_assoc (bytes_of_hex hn) !envl; print_endline "ok"
+    | ["nullres"] -> print_endline "NULL"
+    | ["incfile"; _] -> print_endline "ok"      (* file handling is outside the model: the check hands the model the inlined text *)
     | ["unenv"; hn] -> envl := List.remove_assoc (bytes_of_hex hn) !envl; print_endline "ok"
     | [("ini" | "inif"); sep; hd] ->
         (match ini_parse_str env cmd (n_of_int (int_of_string sep)) (bytes_of_hex hd) with
          | Ok t -> print_endline (String.concat " " (string_of_int (List.length t) :: List.map (fun (a, b) -> hex_of_bytes a ^ "=" ^ hex_of_bytes b) t))
          | Crash -> print_endline "CRASH" | Fuel -> print_endline "FUEL")
-    | ["ac"; flags; def; tbl; hd] ->
+    | [("ac" | "acr"); flags; def; tbl; hd] ->
         (match aconf_parse cb (parse_table tbl) (n_of_int (int_of_string flags)) (def <> "0") maxl (bytes_of_hex hd) with
          | Ok (PDone (c, s)) -> print_endline (Printf.sprintf "%d - -%s" (int_of_n c) (trace_str s))
          | Ok (PErr (l, e, s)) -> print_endline (Printf.sprintf "-1 %d %s%s" (int_of_n l) (hexs (errmsg e)) (trace_str s))
